@@ -37,8 +37,8 @@ def has_unmodelled(ctx):
     ['LVA', argspec] = the legacy verbatim parser for a \\verb-like macro WITH leading standard arguments"""
     if ctx == 'default':
         return False
-    bad = lambda a: a is not None and a[0] in ('LVA', 'SH', 'VB')
-    if ctx.get('provide'):
+    bad = lambda a: a is not None and (a[0] in ('LVA', 'SH', 'VB') or (a[0] == 'S' and any(sp[1] in ('+c', '-c') for sp in a[1])))
+    if ctx.get('provide') or ctx.get('lists'):
         return True
     return any(bad(a) for _, a in ctx['macros']) or any(bad(a) for _, a, _ in ctx['envs']) or any(bad(a) for _, a in ctx['specials'])
 
@@ -64,6 +64,12 @@ def make_argspec_list(specs):
             d = ParsingStateDeltaEnterMathMode()
         elif delta == '-':
             d = ParsingStateDeltaLeaveMathMode()
+        elif delta in ('+c', '-c'):
+            # a chain of deltas (public class ParsingStateDeltaChained): the mode switch first, then an unrelated setting
+            from pylatexenc.latexnodes import ParsingStateDeltaChained, ParsingStateDelta
+            d = ParsingStateDeltaChained([
+                ParsingStateDeltaEnterMathMode() if delta == '+c' else ParsingStateDeltaLeaveMathMode(),
+                ParsingStateDelta(set_attributes={'enable_comments': True})])
         if kind == 'm0':
             p = LatexStandardArgumentParser('{', allow_pre_space=False)
         elif kind == 'o1':
@@ -121,6 +127,8 @@ def make_db(ctx):
     from pylatexenc.latexnodes import ParsingStateDeltaEnterMathMode
     if ctx.get('provide'):
         return make_extending_db(ctx)
+    if ctx.get('lists'):
+        return make_lists_db(ctx)
     db = macrospec.LatexContextDb()
     db.add_context_category(
         'c',
@@ -134,6 +142,23 @@ def make_db(ctx):
         db.set_unknown_environment_spec(make_spec(
             macrospec.EnvironmentSpec, '', ctx['ue'][0],
             **({'body_parsing_state_delta': ParsingStateDeltaEnterMathMode()} if ctx['ue'][1] else {})))
+    return db
+
+def make_lists_db(ctx):
+    """list environments whose BODY makes `\\item` known (body_parsing_state_delta = ParsingStateDeltaExtendLatexContextDb),
+    nested lists extend the context a second time; unknown macros fall back to a macro without arguments.  Oracle only."""
+    from pylatexenc import macrospec
+    def body_delta():
+        return macrospec.ParsingStateDeltaExtendLatexContextDb(
+            extend_latex_context=dict(macros=[macrospec.MacroSpec('item', '[')]))
+    db = macrospec.LatexContextDb()
+    db.add_context_category('lists', environments=[
+        macrospec.EnvironmentSpec('enumerate', body_parsing_state_delta=body_delta()),
+        macrospec.EnvironmentSpec('itemize', body_parsing_state_delta=body_delta())],
+        macros=[macrospec.MacroSpec('emph', '{')])
+    db.set_unknown_macro_spec(macrospec.MacroSpec(''))
+    db.set_unknown_environment_spec(macrospec.EnvironmentSpec(''))
+    db.freeze()
     return db
 
 def make_extending_db(ctx):
